@@ -69,7 +69,8 @@ SetCon(e, k, val) == [e EXCEPT !.con = [x \in DOMAIN e.con \cup {k} |-> IF x = k
 \* "content hash": the event without signatures, unsigned and hashes
 HashInput(e) == DropTop(e, {"signatures", "unsigned", "hashes"})
 ContentHash(e) == H(HashInput(e))
-HashOK(e) == IF "hashes" \in DOMAIN e.top THEN e.top["hashes"] = ContentHash(e) ELSE FALSE
+\* the check reads the sha256 entry of `hashes` (field h); other entries of the object play no part in it
+HashOK(e) == IF "hashes" \in DOMAIN e.top THEN e.top["hashes"].h = HashInput(e) ELSE FALSE
 
 \* identity token
 Id(v, e) == IF EventIDFormat(v) = 1
@@ -341,7 +342,9 @@ Sibling(f) ==
 \* --- Tamper(T, hm) on the wire, then ReparseUntrusted -------------------------------------------------------------
 TamperElems == {"con_out_chg", "con_out_add", "con_in", "tpi_chg", "top_add", "origin_chg", "depth_chg", "unsigned",
                 "age_ts", "outdest", "event_id"}
-HashModes == {"keep", "garbage", "rehash", "remove"}
+\* extra: another algorithm's entry is put next to the untouched sha256 (the check still passes or fails as
+\* before, but `hashes` - protected, signed, part of the identity - is no longer what was signed)
+HashModes == {"keep", "garbage", "rehash", "remove", "extra"}
 
 OutKeys(v, e) == (DOMAIN e.con \ KeptContentKeys(RedactionAlgo(v), e)) \ {NestedKey}
 InKeys(v, e) == (DOMAIN e.con \cap KeptContentKeys(RedactionAlgo(v), e)) \ {NestedKey}
@@ -373,6 +376,7 @@ ApplyT(v, e, T) ==
 ApplyH(v, e, hm) ==
     CASE hm = "keep" -> e
       [] hm = "garbage" -> SetTop(e, "hashes", Garbage)
+      [] hm = "extra" -> SetTop(e, "hashes", [h |-> e.top["hashes"].h, more |-> "md5"])
       [] hm = "remove" -> DropTop(e, {"hashes"})
       [] hm = "rehash" -> SetTop(e, "hashes", ContentHash(Received(v, e)))   \* the hash a forger would compute
 
@@ -476,11 +480,11 @@ PV12 ==
 
 \* C04 ------------------------------------------------------------------------------------------------
 TDone == phase = "done" /\ Family = "tamper"
-HashAltered == out.hm \in {"garbage", "remove"} \/ (out.hm = "rehash" /\ out.T \cap HashedElems(ver) # {})
+HashAltered == out.hm \in {"garbage", "remove", "extra"} \/ (out.hm = "rehash" /\ out.T \cap HashedElems(ver) # {})
 \* the content hash no longer matches the hashed fields
 \* (an event redacted before it is sent keeps the hash of its unredacted form: no match unless nothing was removed)
 BaseOK == PreRedacted => HashOK(Received(ver, RedactV(ver, built)))
-Mismatch == out.hm \in {"garbage", "remove"} \/ (out.hm = "keep" /\ (out.T \cap HashedElems(ver) # {} \/ ~BaseOK))
+Mismatch == out.hm \in {"garbage", "remove"} \/ (out.hm \in {"keep", "extra"} /\ (out.T \cap HashedElems(ver) # {} \/ ~BaseOK))
 \* material the redaction algorithm of the version strips (or the receiver strips)
 Redactable(x) ==
     CASE x = "con_out_chg" -> TRUE
